@@ -250,7 +250,8 @@ def classify(res, r, lines, unit, seed, path):
                 break
         # whitelist of verdicts that are failed obligations; every other Verus message is a tool / proof-incompleteness message
         known_kinds = ("not satisfied", "assertion failed", "possible arithmetic", "possible division", "possible bit shift",
-                       "unable to prove post-condition", "unable to prove pre-condition", "index out of")
+                       "unable to prove post-condition", "unable to prove pre-condition", "index out of",
+                       "precondition not met")   # vstd custom_err form, e.g. "precondition not met: index in bounds for this access"
         if fn is None:
             if spans:
                 res.undecided.append("unit %s: failure outside extracted code (spec library / scaffolding): %s" % (unit.name, rendered.strip()[:600]))
